@@ -61,6 +61,13 @@ WORDS = ["---", "...", "--- a", "... a", "a ---", "a ...", ": ", " #", "- ", "? 
          "?a", ":a", "%a", "&a", "*a", "!a", "|", ">", "''", "\"\"", "\\n", "\\", "  ", " \t ", "\n\n", "\n \n",
          "key", "null", "~", "{a}", "[a]", "a,b", "x" * 30, "it's", "say \"hi\"", "\u00e9t\u00e9", "\U0001f600\U0001f600"]
 
+PLAIN_ALPHA = "a -:#,.\n"
+
+
+class PlainOnly(str):
+    """a target that is presented in plain style only"""
+
+
 NAMED = {0: ["0"], 7: ["a"], 8: ["b"], 9: ["t", "\t"], 10: ["n"], 11: ["v"], 12: ["f"], 13: ["r"], 27: ["e"], 32: [" "],
          34: ["\""], 47: ["/"], 92: ["\\"], 0x85: ["N"], 0xA0: ["_"], 0x2028: ["L"], 0x2029: ["P"]}
 INDICATORS = set("-?:,[]{}#&*!|>'\"%@`")
@@ -671,6 +678,10 @@ def targets(tier, rng):
     maxlen = 3 if tier == "quick" else 4
     groups.append(("words", list(WORDS)))
     groups.append(("exhaustive<=%d/%d" % (maxlen, len(ALPHA)), gen.exhaustive(ALPHA, maxlen)))
+    # plain-friendly alphabet, longer strings (folding targets, indicators inside words, `---` / `...` words)
+    pl = 5 if tier == "quick" else 6
+    groups.append(("plain-exhaustive<=%d/%d (plain style only)" % (pl, len(PLAIN_ALPHA)),
+                   (PlainOnly(t) for t in gen.exhaustive(PLAIN_ALPHA, pl) if plain_feasible(t, False, True))))
     rnd = []
     for _ in range(6000 if tier == "quick" else 150000):
         k = rng.randint(4, 24)
@@ -716,6 +727,9 @@ class Tally:
 def make_cases(t, rng, ta, docs_seen):
     out = []
     plan = (("D", 2), ("S", 1), ("P", 2)) if len(t) <= 4 else (("D", 3), ("S", 2), ("P", 3))
+    if isinstance(t, PlainOnly):
+        plan = (("P", 3),)
+        t = str(t)
     for style, reps in plan:
         for _ in range(reps):
             ctxf = CONTEXTS[ta.ci % len(CONTEXTS)]
@@ -816,9 +830,10 @@ def check_C04(tier, seed):
     for label, items in targets(tier, rng):
         k = 0
         for t in items:
-            if t in seen:
+            key = (t, isinstance(t, PlainOnly))
+            if key in seen:
                 continue
-            seen.add(t)
+            seen.add(key)
             k += 1
             batch += make_cases(t, rng, ta, docs_seen)
             if len(batch) >= BATCH:
@@ -841,7 +856,11 @@ def check_C04(tier, seed):
         res.known.append("%s: %d runs (cases x back-ends) of the recorded class fail the recorded way; e.g. %r -> %s"
                          % (cls, n, ta.kn_example[cls][0], ta.kn_example[cls][1]))
     res.samples = ta.sample_pool
-    rule = ("targets: every string of length <= %d over the %d-symbol tricky alphabet, a word list, random strings of length 4-24 "
+    res.notes.append("theorems: T1/T2 full (escape tables, hexadecimal, resolve_escape); T3 partial (all words, all words with "
+                     "escapes, all single-line escape-free quoted scalars); multi-line folding and plain scalars are covered by the "
+                     "differential run only; C04_plain_full is refuted (known finding plain-indented-document-marker)")
+    rule = ("targets: every string of length <= %d over the %d-symbol tricky alphabet, every plain-presentable string of length <= 5 "
+            "(quick) / 6 (thorough) over the 8-symbol plain alphabet, a word list, random strings of length 4-24 "
             "and long strings around the 128-character chunk boundary; each presented 2-3 times per style (double, single, plain "
             "where presentable) with random escape/literal, fold/escaped-break, indentation and padding choices, contexts taken "
             "round-robin from %d builders; evaluations = documents (each run through both back-ends and the model); non-trivial = "
